@@ -28,10 +28,10 @@ def corpus_cases():
     for f in sorted(glob.glob(os.path.join(VERIF, "corpus", "*", "*.sc"))):
         if "/effects/" in f:
             eff += 1
-            if EFFECTS_LIMIT == 0 or EFFECTS_LIMIT is not None and (eff - 1) % max(1, 59 // max(1, EFFECTS_LIMIT)) != 0:
+            if EFFECTS_LIMIT == 0 or EFFECTS_LIMIT is not None and (eff - 1) % max(1, 64 // max(1, EFFECTS_LIMIT)) != 0:
                 continue          # a spread sample of the effect-order corpus for the checks that are not about evaluation order
         nm = "cp_" + os.path.basename(f)[:-3]
-        out.append(({"name": nm, "kind": "fun", "path": f}, [[2]] if "/loops/" in f else [[]]))
+        out.append(({"name": nm, "kind": "fun", "path": f}, [[2]] if "/loops/" in f else ([[0], [2]] if "/pairs_" in f else [[]])))
     return out
 
 
